@@ -48,6 +48,13 @@ inductive Ev where
   | appendChar (c n : Nat)
   deriving Repr, DecidableEq
 
+/-- a divisor: zero is undefined behaviour in C++, a fault here -/
+def chkNZ (x : Nat) : M Nat := if x = 0 then .error (.overflow "division by zero") else .ok x
+
+/-- `*--cursor = x` into a buffer that holds `cap` units before its terminator: a fault if the text would start before the buffer -/
+def pushFront (cap : Nat) (x : Nat) (l : List Nat) : M (List Nat) :=
+  if l.length < cap then .ok (x :: l) else .error (.overflow "write before the start of the buffer")
+
 abbrev rd8 := rd
 abbrev rd16 := rd
 abbrev rd32 := rd
